@@ -17,7 +17,10 @@ Context (ig : E.integ).
 (* the integration's term objects: any type T the model's terms embed in, with the equality test (`!=` on them) the
    repeated-term logic uses (for the generic integration: the translated term classes and their translated __eq__) *)
 Context {T : Type} (inj : term -> T) (teqb : T -> T -> bool).
-Context (H_teqb : forall a b, teqb (inj a) (inj b) = term_eqb a b).
+(* ... on the terms the integration's equality is exact for (ok): all of them for the generic integration; for rdflib, whose
+   Literal.__eq__ ignores the case of the language tag, the terms whose language tags are in lower case (RDF 1.1's value space) *)
+Context (ok : term -> Prop).
+Context (H_teqb : forall a b, ok a -> ok b -> teqb (inj a) (inj b) = term_eqb a b).
 (* what the integration's dispatcher does *)
 Context (enc_spo : T -> Z -> pbval str -> TermEncoder SN -> outcome (list (pbval str)) * TermEncoder SN * pbval str).
 Context (enc_graph : T -> pbval str -> TermEncoder SN -> outcome (list (pbval str)) * TermEncoder SN * pbval str).
@@ -73,9 +76,12 @@ Context (H_spo : sim_spo) (H_graph : sim_graph).
 Notation oi := (option_map inj).
 Definition rlist (rp : E.repeated) : list (option T) := [oi (E.r_s rp); oi (E.r_p rp); oi (E.r_o rp); oi (E.r_g rp)].
 
-Lemma differs_is (prev : option term) (tm : term) :
+Definition ok_opt (o : option term) : Prop := match o with Some t => ok t | None => True end.
+Definition rep_ok (rp : E.repeated) : Prop := ok_opt (E.r_s rp) /\ ok_opt (E.r_p rp) /\ ok_opt (E.r_o rp) /\ ok_opt (E.r_g rp).
+
+Lemma differs_is (prev : option term) (tm : term) : ok_opt prev -> ok tm ->
   negb (match oi prev with Some x_ => teqb x_ (inj tm) | None => false end) = E.differs prev tm.
-Proof. unfold E.differs. destruct prev as [p|]; cbn [option_map]; [rewrite H_teqb|]; reflexivity. Qed.
+Proof. intros Hp Ht. unfold E.differs. destruct prev as [p|]; cbn [option_map]; [rewrite (H_teqb p tm Hp Ht)|]; reflexivity. Qed.
 
 (* one slot of encode_spo, as the model does it, against the dispatcher *)
 Lemma slot_step (i : Z) (prev : option term) (tm : term) (stmt : pbval str) g m : Rt g m -> (0 <= i <= 2) -> building i stmt ->
@@ -146,78 +152,83 @@ Ltac use_slot i prev tm stmt g m HR bl :=
 
 Ltac rows_eq := rewrite ?map_app; cbn [map app]; rewrite ?app_nil_r; rewrite <- ?app_assoc; cbn [app]; reflexivity.
 
+Ltac rep_tac := unfold rep_ok; cbn [E.r_s E.r_p E.r_o E.r_g ok_opt]; repeat split;
+  first [assumption | match goal with H : forall t, In t _ -> ok t |- _ => apply H; cbn [In]; tauto end].
+
 Lemma tie_encode_spo (terms : list term) (rp : E.repeated) (n : string) g m : let stmt := PMsg n [] in
-  In n ["RdfTriple"; "RdfQuad"; "RdfGraphStart"]%string -> Rt g m ->
+  In n ["RdfTriple"; "RdfQuad"; "RdfGraphStart"]%string -> Rt g m -> Forall ok terms -> rep_ok rp ->
   match gen_spo (map inj terms) g (rlist rp) stmt, spo_result terms rp m with
   | (Val rows, terms', g', rl', stmt'), Ok (m', rp', mrows, ws, wp, wo) =>
       rows = map rmsg mrows /\ terms' = map inj (skipn 3 terms) /\ Rt g' m' /\ rl' = rlist rp' /\
-      stmt' = put_opt 2 wo (put_opt 1 wp (put_opt 0 ws stmt))
+      stmt' = put_opt 2 wo (put_opt 1 wp (put_opt 0 ws stmt)) /\ rep_ok rp'
   | (Exn _, _, _, _, _), Err _ => True
   | _, _ => False
   end.
 Proof.
-  intros stmt Hn HR. unfold encode_spo, spo_result, rlist.
+  intros stmt Hn HR Hok (Hrs & Hrp & Hro & Hrg).
+  assert (HokIn : forall t, In t terms -> ok t) by (apply Forall_forall; exact Hok). clear Hok.
+  unfold encode_spo, spo_result, rlist.
   destruct terms as [|s terms]; [exact I|]. cbn [map E.nth_term nth_error bind].
   change (seq_get [oi (E.r_s rp); oi (E.r_p rp); oi (E.r_o rp); oi (E.r_g rp)] 0) with (@Val (option T) (oi (E.r_s rp))). cbv beta iota.
-  rewrite differs_is.
+  rewrite differs_is by (first [assumption | apply HokIn; cbn [In]; tauto]).
   use_slot 0 (E.r_s rp) s stmt g m HR ltac:(bld n (@None wterm) (@None wterm)); cbn [bind]; try exact I.
   - (* subject encoded *)
     change (seq_set [oi (E.r_s rp); oi (E.r_p rp); oi (E.r_o rp); oi (E.r_g rp)] 0 (Some (inj s))) with (@Val (list (option T)) [Some (inj s); oi (E.r_p rp); oi (E.r_o rp); oi (E.r_g rp)]).
     cbv beta iota. destruct terms as [|p terms]; [exact I|]. cbn [map E.nth_term nth_error bind].
     change (seq_get [Some (inj s); oi (E.r_p rp); oi (E.r_o rp); oi (E.r_g rp)] 1) with (@Val (option T) (oi (E.r_p rp))). cbv beta iota.
-    rewrite differs_is.
+    rewrite differs_is by (first [assumption | apply HokIn; cbn [In]; tauto]).
     use_slot 1 (E.r_p rp) p (put_opt 0 w stmt) g' m' HR' ltac:(bld n w (@None wterm)); cbn [bind]; try exact I.
     + change (seq_set [Some (inj s); oi (E.r_p rp); oi (E.r_o rp); oi (E.r_g rp)] 1 (Some (inj p))) with (@Val (list (option T)) [Some (inj s); Some (inj p); oi (E.r_o rp); oi (E.r_g rp)]).
       cbv beta iota. destruct terms as [|o terms]; [exact I|]. cbn [map E.nth_term nth_error bind].
       change (seq_get [Some (inj s); Some (inj p); oi (E.r_o rp); oi (E.r_g rp)] 2) with (@Val (option T) (oi (E.r_o rp))). cbv beta iota.
-      rewrite differs_is.
+      rewrite differs_is by (first [assumption | apply HokIn; cbn [In]; tauto]).
       use_slot 2 (E.r_o rp) o (put_opt 1 w0 (put_opt 0 w stmt)) g'0 m'0 HR'0 ltac:(bld n w w0); cbn [bind]; try exact I.
       * change (seq_set [Some (inj s); Some (inj p); oi (E.r_o rp); oi (E.r_g rp)] 2 (Some (inj o))) with (@Val (list (option T)) [Some (inj s); Some (inj p); Some (inj o); oi (E.r_g rp)]).
-        cbv iota. split; [rows_eq|]. split; [reflexivity|]. split; [assumption|]. split; reflexivity.
-      * split; [rows_eq|]. split; [reflexivity|]. split; [assumption|]. split; reflexivity.
+        cbv iota. split; [rows_eq|]. split; [reflexivity|]. split; [assumption|]. split; [reflexivity|]. split; [reflexivity | rep_tac].
+      * split; [rows_eq|]. split; [reflexivity|]. split; [assumption|]. split; [reflexivity|]. split; [reflexivity | rep_tac].
     + destruct terms as [|o terms]; [exact I|]. cbn [map E.nth_term nth_error bind].
       change (seq_get [Some (inj s); oi (E.r_p rp); oi (E.r_o rp); oi (E.r_g rp)] 2) with (@Val (option T) (oi (E.r_o rp))). cbv beta iota.
-      rewrite differs_is.
+      rewrite differs_is by (first [assumption | apply HokIn; cbn [In]; tauto]).
       use_slot 2 (E.r_o rp) o (put_opt 0 w stmt) g' m' HR' ltac:(bld n w (@None wterm)); cbn [bind]; try exact I.
       * change (seq_set [Some (inj s); oi (E.r_p rp); oi (E.r_o rp); oi (E.r_g rp)] 2 (Some (inj o))) with (@Val (list (option T)) [Some (inj s); oi (E.r_p rp); Some (inj o); oi (E.r_g rp)]).
-        cbv iota. split; [rows_eq|]. split; [reflexivity|]. split; [assumption|]. split; reflexivity.
-      * split; [rows_eq|]. split; [reflexivity|]. split; [assumption|]. split; reflexivity.
+        cbv iota. split; [rows_eq|]. split; [reflexivity|]. split; [assumption|]. split; [reflexivity|]. split; [reflexivity | rep_tac].
+      * split; [rows_eq|]. split; [reflexivity|]. split; [assumption|]. split; [reflexivity|]. split; [reflexivity | rep_tac].
   - (* subject repeated *)
     destruct terms as [|p terms]; [exact I|]. cbn [map E.nth_term nth_error bind].
     change (seq_get [oi (E.r_s rp); oi (E.r_p rp); oi (E.r_o rp); oi (E.r_g rp)] 1) with (@Val (option T) (oi (E.r_p rp))). cbv beta iota.
-    rewrite differs_is.
+    rewrite differs_is by (first [assumption | apply HokIn; cbn [In]; tauto]).
     use_slot 1 (E.r_p rp) p stmt g m HR ltac:(bld n (@None wterm) (@None wterm)); cbn [bind]; try exact I.
     + change (seq_set [oi (E.r_s rp); oi (E.r_p rp); oi (E.r_o rp); oi (E.r_g rp)] 1 (Some (inj p))) with (@Val (list (option T)) [oi (E.r_s rp); Some (inj p); oi (E.r_o rp); oi (E.r_g rp)]).
       cbv beta iota. destruct terms as [|o terms]; [exact I|]. cbn [map E.nth_term nth_error bind].
       change (seq_get [oi (E.r_s rp); Some (inj p); oi (E.r_o rp); oi (E.r_g rp)] 2) with (@Val (option T) (oi (E.r_o rp))). cbv beta iota.
-      rewrite differs_is.
+      rewrite differs_is by (first [assumption | apply HokIn; cbn [In]; tauto]).
       use_slot 2 (E.r_o rp) o (put_opt 1 w stmt) g' m' HR' ltac:(bld n (@None wterm) w); cbn [bind]; try exact I.
       * change (seq_set [oi (E.r_s rp); Some (inj p); oi (E.r_o rp); oi (E.r_g rp)] 2 (Some (inj o))) with (@Val (list (option T)) [oi (E.r_s rp); Some (inj p); Some (inj o); oi (E.r_g rp)]).
-        cbv iota. split; [rows_eq|]. split; [reflexivity|]. split; [assumption|]. split; reflexivity.
-      * split; [rows_eq|]. split; [reflexivity|]. split; [assumption|]. split; reflexivity.
+        cbv iota. split; [rows_eq|]. split; [reflexivity|]. split; [assumption|]. split; [reflexivity|]. split; [reflexivity | rep_tac].
+      * split; [rows_eq|]. split; [reflexivity|]. split; [assumption|]. split; [reflexivity|]. split; [reflexivity | rep_tac].
     + destruct terms as [|o terms]; [exact I|]. cbn [map E.nth_term nth_error bind].
       change (seq_get [oi (E.r_s rp); oi (E.r_p rp); oi (E.r_o rp); oi (E.r_g rp)] 2) with (@Val (option T) (oi (E.r_o rp))). cbv beta iota.
-      rewrite differs_is.
+      rewrite differs_is by (first [assumption | apply HokIn; cbn [In]; tauto]).
       use_slot 2 (E.r_o rp) o stmt g m HR ltac:(bld n (@None wterm) (@None wterm)); cbn [bind]; try exact I.
       * change (seq_set [oi (E.r_s rp); oi (E.r_p rp); oi (E.r_o rp); oi (E.r_g rp)] 2 (Some (inj o))) with (@Val (list (option T)) [oi (E.r_s rp); oi (E.r_p rp); Some (inj o); oi (E.r_g rp)]).
-        cbv iota. split; [rows_eq|]. split; [reflexivity|]. split; [assumption|]. split; reflexivity.
-      * split; [reflexivity|]. split; [reflexivity|]. split; [assumption|]. split; reflexivity.
+        cbv iota. split; [rows_eq|]. split; [reflexivity|]. split; [assumption|]. split; [reflexivity|]. split; [reflexivity | rep_tac].
+      * split; [reflexivity|]. split; [reflexivity|]. split; [assumption|]. split; [reflexivity|]. split; [reflexivity | rep_tac].
 Qed.
 
 (* encode_triple: a new statement, the three slots, then the statement row after the entry rows.  The
    iterator is left after the third term, the repeated terms are what the model keeps. *)
-Theorem source_encode_triple_is_model (terms : list term) (rp : E.repeated) g m : Rt g m ->
+Theorem source_encode_triple_is_model (terms : list term) (rp : E.repeated) g m : Rt g m -> Forall ok terms -> rep_ok rp ->
   match encode_triple SN teqb enc_spo (map inj terms) g (rlist rp), E.encode_triple ig terms m rp with
   | (Val rows, terms', g', rl'), Ok (m', rp', mrows) =>
-      rows = map rmsg mrows /\ Rt g' m' /\ rl' = rlist rp' /\ terms' = map inj (skipn 3 terms)
+      rows = map rmsg mrows /\ Rt g' m' /\ rl' = rlist rp' /\ terms' = map inj (skipn 3 terms) /\ rep_ok rp'
   | (Exn _, _, _, _), Err _ => True
   | _, _ => False
   end.
 Proof.
-  intros HR. unfold encode_triple.
+  intros HR Hok Hrep. unfold encode_triple.
   pose proof (source_start_statement_is_model g m HR) as H0.
   destruct (TermEncoder_start_statement SN g) as [[u|e] g0]; [|contradiction].
-  pose proof (tie_encode_spo terms rp "RdfTriple" g0 (E.start_statement m) ltac:(left; reflexivity) H0) as H. cbv zeta in H.
+  pose proof (tie_encode_spo terms rp "RdfTriple" g0 (E.start_statement m) ltac:(left; reflexivity) H0 Hok Hrep) as H. cbv zeta in H.
   assert (Hm : E.encode_triple ig terms m rp =
                do x <- spo_result terms rp (E.start_statement m);
                let '(t3, rp', rows, ws, wp, wo) := x in Ok (t3, rp', rows ++ [RTriple ws wp wo])).
@@ -232,8 +243,8 @@ Proof.
   rewrite Hm. norm.
   match goal with |- context [encode_spo ?x1 ?x2 ?x3 ?x4 ?x5 ?x6 ?x7] => destruct (encode_spo x1 x2 x3 x4 x5 x6 x7) as [[[[[rows|e] terms'] g'] rl'] stmt'] end;
     destruct (spo_result terms rp (E.start_statement m)) as [[[[[[m' rp'] mrows] ws] wp] wo]|e']; try contradiction; cbn [bind]; [|exact I].
-  destruct H as (-> & -> & HR' & -> & ->).
-  split; [rewrite map_app; reflexivity|]. split; [exact HR'|]. split; reflexivity.
+  destruct H as (-> & -> & HR' & -> & -> & Hrep').
+  split; [rewrite map_app; reflexivity|]. split; [exact HR'|]. split; [reflexivity|]. split; [reflexivity | exact Hrep'].
 Qed.
 
 Lemma gslot_step (prev : option term) (tm : term) (stmt : pbval str) g m : Rt g m -> building 3 stmt ->
@@ -256,18 +267,18 @@ Proof.
   - split; [reflexivity|]. split; [reflexivity|]. split; reflexivity.
 Qed.
 
-Theorem source_encode_quad_is_model (terms : list term) (rp : E.repeated) g m : Rt g m ->
+Theorem source_encode_quad_is_model (terms : list term) (rp : E.repeated) g m : Rt g m -> Forall ok terms -> rep_ok rp ->
   match encode_quad SN teqb enc_spo enc_graph (map inj terms) g (rlist rp), E.encode_quad ig terms m rp with
   | (Val rows, terms', g', rl'), Ok (m', rp', mrows) =>
-      rows = map rmsg mrows /\ Rt g' m' /\ rl' = rlist rp' /\ terms' = map inj (skipn 4 terms)
+      rows = map rmsg mrows /\ Rt g' m' /\ rl' = rlist rp' /\ terms' = map inj (skipn 4 terms) /\ rep_ok rp'
   | (Exn _, _, _, _), Err _ => True
   | _, _ => False
   end.
 Proof.
-  intros HR. unfold encode_quad.
+  intros HR Hok Hrep. unfold encode_quad.
   pose proof (source_start_statement_is_model g m HR) as H0.
   destruct (TermEncoder_start_statement SN g) as [[u|e] g0]; [|contradiction].
-  pose proof (tie_encode_spo terms rp "RdfQuad" g0 (E.start_statement m) ltac:(right; left; reflexivity) H0) as H. cbv zeta in H.
+  pose proof (tie_encode_spo terms rp "RdfQuad" g0 (E.start_statement m) ltac:(right; left; reflexivity) H0 Hok Hrep) as H. cbv zeta in H.
   assert (Hm : E.encode_quad ig terms m rp =
                do x <- spo_result terms rp (E.start_statement m);
                let '(t3, rp3, rows, ws, wp, wo) := x in
@@ -287,25 +298,31 @@ Proof.
   rewrite Hm. norm.
   match goal with |- context [encode_spo ?x1 ?x2 ?x3 ?x4 ?x5 ?x6 ?x7] => destruct (encode_spo x1 x2 x3 x4 x5 x6 x7) as [[[[[rows|e] terms'] g'] rl'] stmt'] end;
     destruct (spo_result terms rp (E.start_statement m)) as [[[[[[m' rp'] mrows] ws] wp] wo]|e'] eqn:Es; try contradiction; cbn [bind]; [|exact I].
-  destruct H as (-> & -> & HR' & -> & ->).
+  destruct H as (-> & -> & HR' & -> & -> & Hrep').
   pose proof (spo_result_rg _ _ _ _ _ _ _ _ _ Es) as Hg.
+  assert (Hokg : forall gt rest, skipn 3 terms = gt :: rest -> ok gt).
+  { intros gt rest Hsk. apply (proj1 (Forall_forall ok terms) Hok). rewrite <- (firstn_skipn 3 terms), Hsk. apply in_or_app. right. left. reflexivity. }
+  destruct Hrep as (_ & _ & _ & Hrg). destruct Hrep' as (Hrs' & Hrp' & Hro' & _).
   (* the graph slot *)
   cbv beta iota.
   pose proof (skipn3_nth terms) as Hn.
   destruct (skipn 3 terms) as [|gt rest]; [rewrite Hn; cbn [bind map]; exact I|].
+  specialize (Hokg gt rest eq_refl).
   destruct Hn as [Hn ->]. rewrite Hn. cbn [bind map].
   change (seq_get (rlist rp') 3) with (@Val (option T) (oi (E.r_g rp'))). cbv beta iota.
-  rewrite differs_is, Hg.
+  rewrite differs_is by (first [rewrite Hg; assumption | assumption]). rewrite Hg.
   pose proof (gslot_step (E.r_g rp) gt (put_opt 2 wo (put_opt 1 wp (put_opt 0 ws (PMsg "RdfQuad" [])))) g' m' HR'
                 ltac:(exists "RdfQuad"%string, ws, wp, wo; split; [right; left; reflexivity | reflexivity])) as Hs.
   destruct (E.encode_gslot ig (E.r_g rp) gt m') as [[[[m4 r4] wg] pg]|e4].
   - destruct (E.differs (E.r_g rp) gt) eqn:Ed.
     + destruct Hs as (g4 & rows4 & Hcall & -> & HR4 & ->). norm. rewrite Hcall. cbn [bind].
       change (seq_set (rlist rp') 3 (Some (inj gt))) with (@Val (list (option T)) [oi (E.r_s rp'); oi (E.r_p rp'); oi (E.r_o rp'); Some (inj gt)]). cbv beta iota.
-      split; [rewrite !map_app; rewrite <- app_assoc; reflexivity|]. split; [exact HR4|]. split; reflexivity.
+      split; [rewrite !map_app; rewrite <- app_assoc; reflexivity|]. split; [exact HR4|]. split; [reflexivity|]. split; [reflexivity|].
+      unfold rep_ok. cbn [E.r_s E.r_p E.r_o E.r_g ok_opt]. repeat split; assumption.
     + destruct Hs as (-> & -> & -> & ->). cbn [bind].
-      split; [rewrite map_app; reflexivity|]. split; [exact HR'|]. split; [|reflexivity].
-      unfold rlist. cbn [E.r_s E.r_p E.r_o E.r_g]. rewrite Hg. reflexivity.
+      split; [rewrite map_app; reflexivity|]. split; [exact HR'|]. split; [|split; [reflexivity|]].
+      * unfold rlist. cbn [E.r_s E.r_p E.r_o E.r_g]. rewrite Hg. reflexivity.
+      * unfold rep_ok. cbn [E.r_s E.r_p E.r_o E.r_g ok_opt]. repeat split; assumption.
   - destruct Hs as (Ed & e & g4 & s4 & Hcall). rewrite Ed. norm. rewrite Hcall. cbn [bind]. exact I.
 Qed.
 
